@@ -339,7 +339,8 @@ def constructor_cases(tier):
     out = []
     for dspec in device_specs(tier):
         for n in (1, 2, 3, 4, 7):
-            for spacing in (None, D, D + 1.0, D - 1.0):
+            # the spacing pre-check of the constructor and the device's distance check must agree around the minimum distance
+            for spacing in (None, D, D + 1.0, D - 1.0, D - 1e-3, D - 3e-5, D - 1e-5, D - 2e-6, D - 5e-7, D + 5e-7, D + 1e-3):
                 out.append(("maxconn", dspec, n, spacing))
     # device parameter combinations: each optional limit None / valid / boundary / invalid
     combos = [
